@@ -24,7 +24,7 @@ func init() { register(c19{}) }
 func (c19) ID() string    { return "C19" }
 func (c19) Level() string { return "exploration" }
 func (c19) Rule() string {
-	return "String and Dump are called under a panic guard (a call that never returns is caught by the watchdog on CPU-time evidence) on: zero values and NewX() values of every exported type (packets, TopicFilter, UserProp, UserProperties, Malformed, ReasonCode, a CONNECT holding a zero-value will); packets whose strings have every length 0..639 (and around 1000, 4096, 16384, 65535) with a failure reason code; every intermediate state of the C12 setter histories; every packet ReadPacket accepts from the hostile corpus of C04 and every partially filled packet a failed UnmarshalBinary leaves behind (zero, NewX() and reused receivers); and exhaustively all 256 values of every rendered byte: reason code on each packet that renders one and ReasonCode.String, the fixed-header byte (decode with each first byte), CONNECT flags and CONNACK flags (decode with each flag byte), subscription options (TopicFilter.String and SUBSCRIBE with each option byte). Every 64th Dump is repeated with a writer that itself dumps another packet inside Write. Every reason code is also rendered together with whitespace-only, %-laden, NUL, invalid-UTF-8 and quoted strings in the string fields. Output sanity: String() of a packet is non-empty and names its size in bytes. distinct = (type, state digest); non-trivial = state other than the zero value"
+	return "String and Dump are called under a panic guard (a call that never returns is caught by the watchdog on CPU-time evidence) on: zero values and NewX() values of every exported type (packets, TopicFilter, UserProp, UserProperties, Malformed, ReasonCode, a CONNECT holding a zero-value will); packets whose strings have every length 0..639 (and around 1000, 4096, 16384, 65535) with a failure reason code; every intermediate state of the C12 setter histories; every packet ReadPacket accepts from the hostile corpus of C04 and every partially filled packet a failed UnmarshalBinary leaves behind (zero, NewX() and reused receivers); and exhaustively all 256 values of every rendered byte: reason code on each packet that renders one and ReasonCode.String, the fixed-header byte (decode with each first byte), CONNECT flags and CONNACK flags (decode with each flag byte), subscription options (TopicFilter.String and SUBSCRIBE with each option byte). Every 64th Dump is repeated with a writer that itself dumps another packet inside Write, every 16th with a writer that fails at the start, in the middle or just before the end of the output. Every reason code is also rendered together with whitespace-only, %-laden, NUL, invalid-UTF-8 and quoted strings in the string fields. Output sanity: String() of a packet is non-empty and names its size in bytes. distinct = (type, state digest); non-trivial = state other than the zero value"
 }
 func (c19) Assumptions() []string {
 	return []string{"a typed-nil pointer is not a packet value", "Dump writes to a harness-owned bytes.Buffer"}
@@ -73,6 +73,26 @@ func render(c *run.Ctx, where string, p mq.Packet, origin func() map[string]inte
 			ok0 = false
 		}
 		c.Eval(1)
+	}
+	if renderCount%16 == 5 && panD == nil {
+		// the log the dump goes to fails (disk full, connection closed) at
+		// the start, in the middle or just before the end: Dump has nothing
+		// to report an error with, but it must come back
+		n := d.Len()
+		k := []int{0, n / 2, n - 1, 1, n / 3, 2 * n / 3}[(renderCount/16)%6]
+		if k < 0 {
+			k = 0
+		}
+		fw := &mon.RecordingWriter{FailAt: k, Err: mon.ErrInjected}
+		c.Current(func() string {
+			return fmt.Sprintf("Dump on %s (%s) to a writer that fails after %d of %d bytes %v", T, where, k, n, origin())
+		})
+		if pan := mon.Guard(func() { mq.Dump(fw, p) }); pan != nil {
+			c.Violation("C19/panic/Dump-failing-writer/"+T, fmt.Sprintf("Dump panicked when its writer failed after %d bytes: %s", k, pan.String()), withStack(origin(), pan))
+			ok0 = false
+		}
+		c.Eval(1)
+		c.Count("dump-writers", "failing", 1)
 	}
 	ok := ok0
 	if panS != nil {
